@@ -117,9 +117,9 @@ pub fn run(rep: &mut Report) {
     rep.generated("P32E2 -> P16E1 near 17-bit thresholds (generated)", g / 2, || p32_near_thresholds(16, 1), |&a, l| conv(2, 1, a, false, l));
     match tier {
         Tier::Quick => {
-            let off = rep.cfg.seed % 4;
-            rep.lattice("P32E2 -> P8E0 every 4th pattern (fast oracle)", 1 << 30, move |i, l| conv(2, 0, i * 4 + off, true, l));
-            rep.lattice("P32E2 -> P16E1 every 4th pattern (fast oracle)", 1 << 30, move |i, l| conv(2, 1, i * 4 + off, true, l));
+            let off = rep.cfg.seed % 2;
+            rep.lattice("P32E2 -> P8E0 every 2nd pattern (fast oracle)", 1 << 31, move |i, l| conv(2, 0, i * 2 + off, true, l));
+            rep.lattice("P32E2 -> P16E1 every 2nd pattern (fast oracle)", 1 << 31, move |i, l| conv(2, 1, i * 2 + off, true, l));
         }
         Tier::Thorough => {
             rep.exhaustive("P32E2 -> P8E0 all 2^32 sources (fast oracle)", 1 << 32, |i, l| conv(2, 0, i, true, l));
